@@ -469,6 +469,16 @@ func monC11(c *child.Ctx, replay json.RawMessage) {
 			}
 			k := appCase{ID: i + 1, App: app, Input: hexs(in), Chunk: []int{1, 16, 300, 0}[r.Intn(4)], ReaderUs: []int{0, 0, 50}[r.Intn(3)],
 				WriterMode: mode, WriterUs: us, Procs: []int{1, 2, 16}[r.Intn(3)], StartMs: fixedStart.UnixMilli()}
+			if i%40 == 7 {
+				// "however slow the writer is": a writer that blocks a quarter of a second or
+				// more on every call, with a handful of messages
+				var small []byte
+				for j := r.Range(3, 7); j > 0; j-- {
+					small = append(small, gen.RandFrame(r).Bytes...)
+				}
+				k.Input = hexs(small)
+				k.WriterMode, k.WriterUs = "block", r.Range(250000, 450000)
+			}
 			cases = append(cases, k)
 		}
 		runBatch(app, cases)
